@@ -6,17 +6,19 @@ current-flow kernels it calls).  Oracle: specs/resistive.py (Kirchhoff's laws on
 Laplacian, exact rational arithmetic for the small real networks; series/parallel reductions
 for the circuits).  See SCOPE / RULE below.
 """
-import itertools
-import math
-import multiprocessing as mp
-import sys
-import json
-from fractions import Fraction
+import os
+for _v in ("OPENBLAS_NUM_THREADS", "OMP_NUM_THREADS", "MKL_NUM_THREADS"):
+    os.environ.setdefault(_v, "1")      # tiny matrices; worker processes provide the parallelism
 
-import numpy as np
+import multiprocessing as mp    # noqa: E402
+import sys                      # noqa: E402
+import json                     # noqa: E402
+from fractions import Fraction  # noqa: E402
 
-from bounded.common import parse_args, Report, jsonable, quiet, all_undirected_graphs
-from specs import resistive as S
+import numpy as np              # noqa: E402
+
+from bounded.common import parse_args, Report, jsonable, quiet, all_undirected_graphs  # noqa: E402
+from specs import resistive as S                                                       # noqa: E402
 
 PROP = "C18"
 
@@ -27,7 +29,9 @@ SCOPE = (
     "ResNetwork on (a) every connected labelled simple graph with 2..5 nodes (771 graphs; thorough: "
     "also all 26704 connected labelled graphs on 6 nodes), (b) series chains (2..8 nodes), parallel "
     "bundles (2..5 branches of 1..3 resistors, with/without a direct link) and ladders (1..6 rungs) "
-    "with relabelled nodes, (c) seeded random connected graphs with 6..14 (thorough: ..30) nodes. "
+    "with relabelled nodes, (c) seeded random connected graphs with 6..14 (thorough: ..30) nodes, "
+    "(d) a chain of 26 unit resistors and 3 (thorough: 24) random connected graphs with 26..30 "
+    "(..40) nodes. "
     "Resistances: seeded multiples of 1/8 in [0.25, 10] (exactly representable, so the rational "
     "oracle sees the same numbers); complex impedances re, im multiples of 1/8, re>0. Every network "
     "is observed after construction and after each call of a history of 1..3 update_resistances "
@@ -283,6 +287,28 @@ def check_state(rec, net, scen, k, prevER):
        lambda: "got %r expected %r" % (lap.tolist(), o["L"].tolist()))
     Rp = net.get_R()
     pscale = _maxabs(o["P"])
+    # The pseudo-inverse must annihilate the constant (null) mode of the Laplacian.  If the
+    # library's R still contains it (entries orders of magnitude above the true pseudo-inverse),
+    # every R-based quantity below is polluted; report that root cause once, with the
+    # consequences in the detail, instead of one failure per dependent clause.
+    if not (np.isfinite(np.asarray(Rp)).all() and _maxabs(Rp) <= 1e3 * pscale):
+        def consequences():
+            txt = "N=%d: max|get_R()|=%.3g but max|pinv(L)|=%.3g" % (n, _maxabs(Rp), pscale)
+            try:
+                er = np.array([[net.effective_resistance(a, b) for b in range(n)] for a in range(n)])
+                txt += "; effective_resistance max abs error %.3g" % _maxabs(er - o["ER"])
+                if not cplx:
+                    tri = (er[:, None, :] - (er[:, :, None] + er[None, :, :])).max()
+                    txt += ", triangle violation %.3g" % tri
+                    vc = [net.vertex_current_flow_betweenness(i) for i in range(min(n, 4))]
+                    txt += "; vertex_current_flow_betweenness[:4]=%r expected %r" % (
+                        [float(x) for x in vc], o["vcfb"][:4].tolist())
+            except Exception as e:     # noqa: BLE001
+                txt += "; (%s while collecting consequences)" % type(e).__name__
+            return txt + "; dependent clauses not evaluated on this state"
+        ev("get_R/null-mode-removed", False, consequences)
+        return None
+    ev("get_R/null-mode-removed", True)
     ev("get_R/pseudo-inverse-of-laplacian", near(Rp, o["P"], pscale),
        lambda: "max abs dev %g (scale %g)" % (_maxabs(np.asarray(Rp) - o["P"]), pscale))
     ev("flagComplex/follows-input", bool(net.flagComplex) == bool(cplx), "flagComplex=%r" % net.flagComplex)
@@ -531,7 +557,7 @@ def random_connected(rng, n, p):
 def build_scenarios(tier, seed):
     rng = np.random.RandomState(seed)
     scens = []
-    draws = 1 if tier == "quick" else 3
+    draws = 2 if tier == "quick" else 4
     v = seed  # rotates the kinds of update / priming across graphs (and seeds)
     for n in range(2, 6):
         for gi, A in enumerate(connected_graphs(n)):
@@ -547,6 +573,18 @@ def build_scenarios(tier, seed):
         n = int(rng.randint(6, nmax + 1))
         A = random_connected(rng, n, rng.uniform(0.05, 0.5))
         scens.append(make_scenario(rng, "rand%d-n%d" % (r, n), A, v, nsteps=2, cplx0=(r % 4 == 3)))
+        v += 1
+    # networks beyond LAPACK's small-matrix SVD regime (N >= 26): a chain of 26 unit resistors and
+    # random graphs
+    p26 = adjacency_from_links(26, [(i, i + 1) for i in range(25)])
+    sc = make_scenario(rng, "chain26-unit", p26, 0, nsteps=1, law={"type": "series", "chain": list(range(26))})
+    sc["steps"][0] = {"re": p26.astype(float).tolist(), "im": None}
+    sc["steps"][1] = next_step(rng, sc["adjacency"], sc["steps"][0], "scale")
+    scens.append(sc)
+    for r in range(3 if tier == "quick" else 24):
+        n = int(rng.randint(26, 31 if tier == "quick" else 41))
+        A = random_connected(rng, n, rng.uniform(0.05, 0.3))
+        scens.append(make_scenario(rng, "large%d-n%d" % (r, n), A, v, nsteps=1, cplx0=(r % 6 == 5)))
         v += 1
     if tier == "thorough":
         for gi, A in enumerate(connected_graphs(6)):
